@@ -202,6 +202,11 @@ func (c *fragCtx) assignedIn(stmts []ast.Stmt) (vars []string, hasRet bool) {
 					if fv, ok := c.fieldOf(ie.X); ok {
 						add(&ast.Ident{Name: fv})
 					}
+					if inner, ok := ie.X.(*ast.IndexExpr); ok {
+						if id, ok := inner.X.(*ast.Ident); ok {
+							add(id)
+						}
+					}
 				}
 				if fv, ok := c.fieldOf(l); ok {
 					add(&ast.Ident{Name: fv})
@@ -468,6 +473,19 @@ func (c *fragCtx) stmts(list []ast.Stmt, k func() string) string {
 		}
 		return c.fail("expression statement")
 	case *ast.IncDecStmt:
+		if ie, isIdx := x.X.(*ast.IndexExpr); isIdx { // m[k]++ on a map of integers
+			if mt, isMap := c.typeOf(ie.X).Underlying().(*types.Map); isMap && c.leanType(mt.Elem()) == "Int" {
+				if mid, ok := ie.X.(*ast.Ident); ok {
+					op := " + "
+					if x.Tok == token.DEC {
+						op = " - "
+					}
+					n, key := lv(mid.Name), c.expr(ie.Index)
+					return emit("let " + n + " := (mapSet " + n + " " + key + " ((mapGet " + n + " " + key + " (0 : Int))" + op + "(1 : Int)))\n")
+				}
+			}
+			return c.fail("++/-- target")
+		}
 		id, ok := x.X.(*ast.Ident)
 		if !ok || !c.isIntLike(x.X) {
 			return c.fail("++/-- target")
@@ -531,6 +549,23 @@ func (c *fragCtx) assign(x *ast.AssignStmt, rest func() string) string {
 		return c.fail("multiple assignment")
 	}
 	if ie, ok := x.Lhs[0].(*ast.IndexExpr); ok {
+		if inner, isNested := ie.X.(*ast.IndexExpr); isNested && x.Tok == token.ASSIGN {
+			// a[i][j] = v on a slice of slices: row := a[i]; row[j] = v; a[i] = row  (values only: rows are not shared)
+			vn, okv := c.varOf(inner.X)
+			outer, isSl := c.typeOf(inner.X).Underlying().(*types.Slice)
+			if okv && isSl {
+				if rowT, isSl2 := outer.Elem().Underlying().(*types.Slice); isSl2 {
+					n := lv(vn)
+					i, j := c.expr(inner.Index), c.expr(ie.Index)
+					v := c.rhs(x.Rhs[0], rowT.Elem())
+					row := c.partial("goIdx " + n + " " + i)
+					row2 := c.partial("goSet " + row + " " + j + " " + v)
+					out := c.partial("goSet " + n + " " + i + " " + row2)
+					return emit("let " + n + " := " + out + "\n")
+				}
+			}
+			return c.fail("indexed assignment")
+		}
 		vn, ok1 := c.varOf(ie.X)
 		if !ok1 || x.Tok != token.ASSIGN {
 			return c.fail("indexed assignment")
